@@ -74,6 +74,8 @@ class MPSBaseQtz(nn.Module):
         # create buffer for temperature tensor
         self.register_buffer('temperature', torch.tensor(softmax_temperature, dtype=torch.float))
         # set the sampling options
+        self.gumbel_softmax = False
+        self.disable_sampling = False
         self.update_softmax_options(
                 temperature=softmax_temperature,
                 hard=hard_softmax,
@@ -148,9 +150,14 @@ class MPSBaseQtz(nn.Module):
             self.temperature = torch.tensor(temperature, dtype=torch.float32)
         if hard is not None:
             self.hard_softmax = hard
-        if disable_sampling is not None and disable_sampling:
+        # options that are not given keep their current value (also the choice of the sampler)
+        if gumbel is not None:
+            self.gumbel_softmax = gumbel
+        if disable_sampling is not None:
+            self.disable_sampling = disable_sampling
+        if self.disable_sampling:
             self.sample_alpha = self.sample_alpha_none
-        elif gumbel is not None and gumbel:
+        elif self.gumbel_softmax:
             self.sample_alpha = self.sample_alpha_gs
         else:
             self.sample_alpha = self.sample_alpha_sm
